@@ -252,7 +252,8 @@ def enum_point_pairs(tier, shard, nshards):
 @st.composite
 def pair_cases(draw):
     style = draw(gen.STYLES_ARITH)
-    lab = st.sampled_from(["a", "b", "c", "x y", ""])
+    # labels that look like the output of an earlier union / mergeLabels are ordinary labels
+    lab = st.sampled_from(["a", "b", "c", "x y", "", "a(b)", "b(a,c)", "a-b"])
     A = draw(gen.interval_tier(style=style, max_segments=8, label=lab, name="A"))
     r = draw(st.integers(0, 9))
     if r == 0:
